@@ -4,23 +4,24 @@ import MpfVerif.Lemmas.QueueEvent
 
 Property theorems only.  Queue events: `Model/QueueEvent.lean` (dispatch tasks, `QueuedEvent` cells, every scheduler
 choice an explicit input); relay / boolean events: `_run_handlers` of `Model/EventBus.lean`.  `progs` (what every
-handler and callback does) is universally quantified; schedules are arbitrary because every theorem is about one
+handler and callback does, incl. kwargs, conditions, coroutine handlers, wait futures, `stop()`) is universally quantified; schedules are arbitrary because every theorem is about one
 arbitrary step from an arbitrary state.
 -/
 namespace MpfVerif.C02
 open MpfVerif.QueueEvent
 
-/-- Order and no overlap inside one queue event: a scheduler step of a dispatch task invokes a prefix `pre` of the
-remaining snapshot, in snapshot (= priority) order; it either reaches the end — then it logs the completion callback
+/-- Order and no overlap inside one queue event: a scheduler step of a dispatch task invokes the handlers of a prefix
+`pre` of the remaining snapshot whose condition holds on the merged kwargs (`eligible`: posted kwargs overridden by the
+handler's own), in snapshot (= priority) order; it either reaches the end — then it logs the completion callback
 exactly once and is done — or it stops right behind the first handler that left its wait registered and sleeps, the
 remaining handlers `post` untouched and no callback logged.  So handler i+1 never starts in the step in which handler
 i registered a wait (and, by `blocked_until_cleared`, in no later step before that wait is cleared). -/
 theorem seq_order (progs : Nat → Prog) (t : Task) (hs : List Handler) (st : St) :
     ∃ pre post, hs = pre ++ post ∧
-      callKeys (runTask progs t hs st).1.log = callKeys st.log ++ pre.map (·.key) ∧
+      callKeys (runTask progs t hs st).1.log = callKeys st.log ++ (eligible t.kw pre).map (·.key) ∧
       (((runTask progs t hs st).2.done = true ∧ post = [] ∧ (runTask progs t hs st).2.awaiting = none ∧
           cbs (runTask progs t hs st).1.log = cbs st.log ++ [t.sn]) ∨
-       ((runTask progs t hs st).2.done = t.done ∧ pre ≠ [] ∧ (runTask progs t hs st).2.rest = some post ∧
+       ((runTask progs t hs st).2.done = t.done ∧ eligible t.kw pre ≠ [] ∧ (runTask progs t hs st).2.rest = some post ∧
           (∃ c e, (runTask progs t hs st).2.awaiting = some (c, e)) ∧
           cbs (runTask progs t hs st).1.log = cbs st.log)) :=
   runTask_spec progs t hs st
@@ -41,19 +42,22 @@ theorem clear_enables (st : St) (c e : Nat) (hw : (getCell st.cells c).waiter = 
   unfold clearCell
   simp [hw, he]
 
-/-- The completion callback fires at most once, and exactly when the task finishes: a finished task can never be
-stepped again; a step of an unfinished task either finishes it and logs its callback once, or logs no callback. -/
+/-- The completion callback fires at most once, and exactly when the task finishes: a finished task (and a task
+cancelled by `EventManager.stop()`) can never be stepped again; a step of an unfinished task either finishes it and logs
+its callback once, or logs no callback. -/
 theorem cb_once (progs : Nat → Prog) (st : St) (t : Task) :
-    (t.done = true → stepTask progs st t = none) ∧
+    (t.done = true ∨ t.cancelled = true → stepTask progs st t = none) ∧
     (∀ st' t', stepTask progs st t = some (st', t') →
       (t'.done = true ∧ cbs st'.log = cbs st.log ++ [t.sn]) ∨ (t'.done = false ∧ cbs st'.log = cbs st.log)) := by
-  refine ⟨fun hd => by simp [stepTask, hd], ?_⟩
+  refine ⟨fun hd => by rcases hd with hd | hd <;> simp [stepTask, hd], ?_⟩
   intro st' t' h
   unfold stepTask at h
-  by_cases hd : t.done = true
+  by_cases hd : (t.done || t.cancelled) = true
   · simp [hd] at h
-  · have hd' : t.done = false := by simpa using hd
-    simp only [hd', Bool.false_eq_true, if_false] at h
+  · have hd' : t.done = false := by
+      cases hx : t.done <;> simp [hx] at hd ⊢
+    have hd2 : (t.done || t.cancelled) = false := by simpa using hd
+    simp only [hd2, Bool.false_eq_true, if_false] at h
     have key : ∀ (t0 : Task) (hs : List Handler), t0.done = false → t0.sn = t.sn →
         runTask progs t0 hs st = (st', t') →
         (t'.done = true ∧ cbs st'.log = cbs st.log ++ [t.sn]) ∨ (t'.done = false ∧ cbs st'.log = cbs st.log) := by
@@ -74,10 +78,49 @@ theorem cb_once (progs : Nat → Prog) (st : St) (t : Task) :
       | some ce =>
         obtain ⟨c, e⟩ := ce
         simp only [ha] at h
-        split at h
-        · simp only [Option.some.injEq] at h
-          exact key { sn := t.sn, ev := t.ev, cb := t.cb, passed := t.passed, rest := some hs } hs rfl rfl h
-        · cases h
+        by_cases hset : st.setEvts.contains e = true
+        · simp only [hset, if_true, Option.some.injEq] at h
+          exact key { sn := t.sn, ev := t.ev, cb := t.cb, passed := t.passed, kw := t.kw, cancelled := t.cancelled,
+                      rest := some hs, done := t.done } hs hd' rfl h
+        · have hset' : st.setEvts.contains e = false := by simpa using hset
+          rw [hset'] at h
+          simp at h
+
+/-- A coroutine handler (`add_async_handler`) that ends — by returning **or because its task was cancelled** (the future
+it awaited was cancelled, it raised `CancelledError`, somebody cancelled the task) — clears the wait registered for it:
+`_async_handler_done` is then exactly `queue.clear()`, so the dispatcher sleeping on that cell is enabled again
+(`clear_enables`).  Only a coroutine that raised another exception leaves the wait in place. -/
+theorem async_done_clears (st : St) (c e : Nat) (o : Outcome) (ho : o ≠ .raised)
+    (hw : (getCell st.cells c).waiter = true) (he : (getCell st.cells c).event = some e) :
+    asyncDone st c o = clearCell st c ∧ (asyncDone st c o).setEvts.contains e = true ∧
+      (getCell (asyncDone st c o).cells c).waiter = false := by
+  have hc : c < st.cells.length := by
+    by_cases hc : c < st.cells.length
+    · exact hc
+    · have : getCell st.cells c = {} := by
+        unfold getCell
+        simp [List.getD, List.getElem?_eq_none (by omega : st.cells.length ≤ c)]
+      rw [this] at hw
+      cases hw
+  have h1 : asyncDone st c o = clearCell st c := by cases o <;> simp_all [asyncDone]
+  refine ⟨h1, ?_, ?_⟩
+  · rw [h1]; exact clear_enables st c e hw he
+  · rw [h1]
+    unfold clearCell
+    simp only [hw, he, Bool.not_true, Bool.false_eq_true, if_false]
+    rw [getCell_setCell st.cells c _ hc]
+
+/-- `EventManager.stop()`: every dispatch task that exists at that moment is finished or cancelled, and a cancelled task
+can never be stepped again in any later state — none of its remaining handlers and not its callback will run; queue
+events posted after `stop()` are refused. -/
+theorem stop_cancels (progs : Nat → Prog) (st st' : St) (own passed : Option Nat) (ev cb : Nat) (pass : Bool) (kw : Kw) :
+    (∀ t ∈ (stopAll st).tasks, stepTask progs st' t = none) ∧ (stopAll st).stopped = true ∧
+    (runAct own passed (stopAll st) (.postQueue ev cb pass kw)).pending = st.pending := by
+  refine ⟨?_, rfl, by simp [runAct, stopAll]⟩
+  intro t ht
+  simp only [stopAll, List.mem_map] at ht
+  obtain ⟨t0, _, rfl⟩ := ht
+  by_cases hd : t0.done = true <;> simp [stepTask, hd]
 
 /-- every step of a task makes progress: it consumes at least one handler of the snapshot or finishes the task -/
 theorem step_progress (progs : Nat → Prog) (t : Task) (hs : List Handler) (st : St) :
@@ -88,7 +131,10 @@ theorem step_progress (progs : Nat → Prog) (t : Task) (hs : List Handler) (st 
   · exact Or.inl hd
   · refine Or.inr ⟨post, hr, ?_⟩
     rw [hsplit, List.length_append]
-    have : 0 < pre.length := List.length_pos_iff.mpr hp
+    have : 0 < pre.length := by
+      cases pre with
+      | nil => simp [eligible] at hp
+      | cons a r => simp
     omega
 
 /-- Relay events: the kwargs handed to the callback are the left fold of the handlers' returned dicts over the posted
@@ -114,12 +160,12 @@ def exProgs : Nat → Prog
   | 1 => ⟨[.wait], false⟩          -- waits, cleared later by a timer
   | 2 => ⟨[], false⟩
   | 3 => ⟨[], true⟩                -- coroutine handler
-  | 4 => ⟨[.wait, .postQueue 2 8 true], false⟩   -- the Mode.start / use_wait_queue pattern
+  | 4 => ⟨[.wait, .postQueue 2 8 true []], false⟩   -- the Mode.start / use_wait_queue pattern
   | 8 => ⟨[.clearPassed], false⟩
   | _ => ⟨[], false⟩
 
-def exSt : St := dispatch (runActs none none {} [.add 1 ⟨10, 0, 1⟩, .add 1 ⟨11, 2, 2⟩, .add 1 ⟨12, -1, 3⟩, .add 1 ⟨13, -2, 4⟩,
-  .add 2 ⟨14, 0, 2⟩, .postQueue 1 9 false])
+def exSt : St := dispatch (runActs none none {} [.add 1 ⟨10, 0, 1, [], none⟩, .add 1 ⟨11, 2, 2, [(1, 7), (2, 3)], some (1, 7)⟩,
+  .add 1 ⟨12, -1, 3, [], none⟩, .add 1 ⟨13, -2, 4, [], none⟩, .add 1 ⟨15, 1, 2, [], some (1, 6)⟩, .add 2 ⟨14, 0, 2, [], none⟩, .postQueue 1 9 false [(1, 5)]])
 
 /-- a schedule: start; blocked; clear cell 1; resume (coroutine handler waits); clear; resume (handler 13 waits and
 posts the inner event with its cell); inner event runs, its callback clears the outer cell; outer finishes -/
@@ -131,6 +177,21 @@ example : (do
     let s5 ← resume exProgs s4 1
     let s6 ← resume exProgs s5 0
     pure (s6.log.map showObs, (resume exProgs s1 0).isNone, (resume exProgs s6 0).isNone)) =
-    some (["c11.1.0.0", "c10.1.0.1", "a1.0.2", "c13.1.0.3", "c14.2.1.4", "b8.1", "b9.0"], true, true) := by decide
+    some (["c11.1.0.0{1=7,2=3}", "c10.1.0.1{1=5}", "a1.0.2{1=5}", "c13.1.0.3{1=5}", "c14.2.1.4{}", "b8.1{}", "b9.0{1=5}"],
+      true, true) := by decide
+
+/-- the coroutine handler's task ends cancelled: same schedule, the dispatcher goes on -/
+example : (do
+    let s1 ← resume exProgs exSt 0
+    let s2 ← resume exProgs (clearCell s1 1) 0
+    let s3 ← resume exProgs (asyncDone s2 2 .cancelled) 0
+    pure (s3.log.length, (resume exProgs (asyncDone s2 2 .raised) 0).isNone)) = some (4, true) := by decide
+
+/-- stop() while the first handler's wait is outstanding: the task is dead although its wait gets cleared afterwards -/
+example : (do
+    let s1 ← resume exProgs exSt 0
+    let s2 := clearCell (runActs none none s1 [.stop, .postQueue 1 9 false []]) 1
+    pure ((resume exProgs s2 0).isNone, s2.pending.length, (applyOp exProgs s2 .dispatch).map (·.tasks.length))) =
+    some (true, 0, some 1) := by decide
 
 end MpfVerif.C02
